@@ -9,8 +9,14 @@ int main(int argc, char** argv) {
 		if (line.empty()) continue; JV j = jparse(line); TableSpec s; for (auto v : j["order"].ints()) s.order.push_back((uint32_t)v); s.ndim = (uint32_t)s.order.size();
 		for (auto& k : j["knots"].a) s.knots.push_back(k.nums()); for (auto v : j["coef"].ints()) s.coeffs.push_back((float)v);
 		std::vector<std::vector<double>> coords; for (auto& c : j["coords"].a) { std::vector<double> v; for (auto& r : c.a) v.push_back((double)r[0].integer() / (double)r[1].integer()); coords.push_back(v); }
-		Table t; PVA::build(t, s, PAD_NAN); uint32_t nd = s.ndim;
-		for (int api = 0; api < 2; api++) {
+		// the same table with all coefficients multiplied by a power of two: every value scales exactly, so the oracle does too
+		// (a grid value is whatever pointwise evaluation gives, however small in absolute terms)
+		static const int SCALE[] = {0, -40, -70, -100, 40};
+		const std::vector<float> coef0 = s.coeffs; uint32_t nd = s.ndim;
+		for (int sci = 0; sci < 5; sci++) {
+		const LD scale = ldexpl(1, SCALE[sci]); s.coeffs = coef0; for (auto& c : s.coeffs) c = std::ldexp(c, SCALE[sci]);
+		Table t; PVA::build(t, s, PAD_NAN);
+		for (int api = 0; api < (sci == 0 ? 2 : 1 + (int)((nc + sci) % 2)); api++) {
 			std::map<std::vector<unsigned>, double> listed; std::vector<unsigned> ranges(nd, 0); bool ok = true; std::string err; bool dup = false;
 			try {
 				if (api == 0) { auto r = t.grideval(coords); for (size_t k = 0; k < r->rows; k++) { std::vector<unsigned> id(nd); for (uint32_t d = 0; d < nd; d++) id[d] = r->i[d][k]; if (listed.count(id)) dup = true; listed[id] += r->x[k]; } for (uint32_t d = 0; d < nd; d++) ranges[d] = r->ranges[d]; }
@@ -23,17 +29,18 @@ int main(int argc, char** argv) {
 			for (auto& e : j["entries"].a) {
 				if (!e["inside"].b) continue; inside++; npts++;
 				std::vector<unsigned> id; for (auto v : e["idx"].ints()) id.push_back((unsigned)v);
-				LD want = (LD)e["val"][0].integer() / (LD)e["val"][1].integer(); LD tol = 64 * ldexpl(1, -53) * (cabs + 1) * 16;
+				LD want = scale * (LD)e["val"][0].integer() / (LD)e["val"][1].integer(); LD tol = 64 * ldexpl(1, -53) * (cabs + scale) * 16;
 				auto it = listed.find(id);
-				if (it == listed.end()) { if (fabsl(want) > tol) { missing++; if (example.empty()) example = "unlisted interior point with value " + std::to_string((double)want); } }
-				else if (!(fabsl((LD)it->second - want) <= tol)) { bad_value++; if (example.empty()) example = "listed " + std::to_string(it->second) + " expected " + std::to_string((double)want); }
+				if (it == listed.end()) { if (fabsl(want) > tol) { missing++; if (example.empty()) example = "unlisted interior point with value " + std::to_string((double)(want / scale)) + " * 2^" + std::to_string(SCALE[sci]); } }
+				else if (!(fabsl((LD)it->second - want) <= tol)) { bad_value++; if (example.empty()) example = "listed " + std::to_string((double)(it->second / scale)) + " expected " + std::to_string((double)(want / scale)) + " (* 2^" + std::to_string(SCALE[sci]) + ")"; }
 				// pointwise evaluation of the same point (single precision path)
 				std::vector<double> x(nd); std::vector<int> c(nd); for (uint32_t d = 0; d < nd; d++) x[d] = coords[d][id[d]];
 				if (t.searchcenters(x.data(), c.data())) { double pv = t.ndsplineeval<double>(x.data(), c.data(), 0); double gv = it == listed.end() ? 0.0 : it->second; if (!(std::fabs(pv - gv) <= (double)tol)) bad_pointwise++; }
 			}
 			bool ranges_ok = ok; for (uint32_t d = 0; ok && d < nd; d++) ranges_ok = ranges_ok && ranges[d] == coords[d].size();
-			JW w; w.s("api", api ? "c" : "cxx").i("case", nc).b("completed", ok).s("err", err).i("inside", inside).i("bad_value", bad_value).i("missing", missing).i("bad_pointwise", bad_pointwise).b("ranges_ok", ranges_ok).b("duplicate_entries", dup).s("example", example).i("ndim", nd);
+			JW w; w.s("api", api ? "c" : "cxx").i("case", nc).i("log2scale", SCALE[sci]).b("completed", ok).s("err", err).i("inside", inside).i("bad_value", bad_value).i("missing", missing).i("bad_pointwise", bad_pointwise).b("ranges_ok", ranges_ok).b("duplicate_entries", dup).s("example", example).i("ndim", nd);
 			w.emit(out);
+		}
 		}
 		nc++;
 	}
